@@ -220,7 +220,7 @@ pub fn c08_track_faults(seed: u64) -> Phase {
         let tracks = crate::catalogue::fixed_tracks(&SIZES[s]);
         for (ti, t) in tracks.iter().enumerate() {
             table.push((s, ti, total));
-            total += 3 + (t.len() as u64 - 1);
+            total += 5 + (t.len() as u64 - 1);
         }
     }
     let make = move |_ctx: &Ctx, i: u64| -> Trace {
@@ -237,8 +237,14 @@ pub fn c08_track_faults(seed: u64) -> Phase {
             0 => faults.extend(t.iter().map(|px| Fault::new("fix_track", Op::PxFlip { idx: *px }))),
             1 => faults.extend(t.iter().map(|px| Fault::new("fix_track", Op::PxSet { idx: *px, val: true }))),
             2 => faults.extend(t.iter().map(|px| Fault::new("fix_track", Op::PxSet { idx: *px, val: false }))),
+            // the track without its end modules inverted; only its two end modules flipped
+            3 => faults.extend(t[1..t.len() - 1].iter().map(|px| Fault::new("fix_track", Op::PxFlip { idx: *px }))),
+            4 => {
+                faults.push(Fault::new("fix_pair", Op::PxFlip { idx: t[0] }));
+                faults.push(Fault::new("fix_pair", Op::PxFlip { idx: t[t.len() - 1] }));
+            }
             _ => {
-                let a = (v - 3) as usize;
+                let a = (v - 5) as usize;
                 faults.push(Fault::new("fix_pair", Op::PxFlip { idx: t[a] }));
                 faults.push(Fault::new("fix_pair", Op::PxFlip { idx: t[a + 1] }));
             }
@@ -567,6 +573,63 @@ pub fn c05_long_streams() -> Phase {
     };
     Phase {
         source: Source::Sweep { name: "sweep_long_streams_around_powers_of_two".into(), prop: "C05".into(), make: Box::new(make) },
+        runs: total,
+        wall_cap_s: 0,
+    }
+}
+
+/// The same relative fixed module flipped in EVERY region of a multi-region symbol (and in every second
+/// region): deviations that repeat with the region period.
+pub fn c08_periodic_fixed_faults(seed: u64) -> Phase {
+    let mut table: Vec<(usize, u64)> = Vec::new(); // (size, first index)
+    let mut total = 0u64;
+    for s in 0..N_SIZES {
+        let si = &SIZES[s];
+        if si.reg_rows * si.reg_cols < 2 {
+            continue;
+        }
+        let rh = si.rows / si.reg_rows;
+        let rw = si.cols / si.reg_cols;
+        table.push((s, total));
+        total += (2 * (rw + rh) as u64 - 4) * 2;
+    }
+    let make = move |_ctx: &Ctx, i: u64| -> Trace {
+        let k = match table.binary_search_by(|e| e.1.cmp(&i)) {
+            Ok(k) => k,
+            Err(k) => k - 1,
+        };
+        let (s, first) = table[k];
+        let si = &SIZES[s];
+        let rh = si.rows / si.reg_rows;
+        let rw = si.cols / si.reg_cols;
+        let r = i - first;
+        let every_second = r % 2 == 1;
+        let m = (r / 2) as usize; // index along the region's border: top row, right column, bottom row, left column
+        let (dr, dc) = if m < rw {
+            (0, m)
+        } else if m < rw + rh - 1 {
+            (m - rw + 1, rw - 1)
+        } else if m < 2 * rw + rh - 2 {
+            (rh - 1, 2 * rw + rh - 3 - m)
+        } else {
+            (2 * (rw + rh) - 4 - m, 0)
+        };
+        let mut faults = Vec::new();
+        let mut n = 0;
+        for rr in 0..si.reg_rows {
+            for rc in 0..si.reg_cols {
+                n += 1;
+                if every_second && n % 2 == 0 {
+                    continue;
+                }
+                let px = (rr * rh + dr) * si.cols + rc * rw + dc;
+                faults.push(Fault::new("fix_flip", Op::PxFlip { idx: px as u32 }));
+            }
+        }
+        Trace { prop: "C08".into(), producer: Producer::Raw { size: s, data: seeded_data(seed, s, r % 3) }, faults }
+    };
+    Phase {
+        source: Source::Sweep { name: "sweep_same_fixed_module_in_every_region".into(), prop: "C08".into(), make: Box::new(make) },
         runs: total,
         wall_cap_s: 0,
     }
